@@ -23,7 +23,7 @@ Operands == {"int", "str", "none", "list", "dict", "tuple", "func", "cls", "modu
 \* fragment kinds and the number of operands they take
 FragKinds ==
     [call_arity |-> 1, call_kw |-> 1, binop |-> 2, unary |-> 1, subscript |-> 2, attribute |-> 1, compare |-> 2,
-     annotation |-> 1, string_annotation |-> 1, decorator |-> 1, class_base |-> 1, class_body |-> 1,
+     annotation |-> 1, string_annotation |-> 1, odd_string_annotation |-> 1, mixed_returns |-> 1, decorator |-> 1, class_base |-> 1, class_body |-> 1,
      listcomp |-> 1, dictcomp |-> 1, genexp |-> 1, lambda_call |-> 1, starred_call |-> 1, starred_assign |-> 1,
      fstring |-> 1, percent_format |-> 1, walrus |-> 1, match_stmt |-> 1, async_fn |-> 1, with_stmt |-> 1,
      for_loop |-> 1, unpack |-> 1, augassign |-> 2, delete |-> 1, global_stmt |-> 0, try_stmt |-> 1,
